@@ -333,6 +333,16 @@ int main(int argc, char** argv) {
     size_t sl = self.rfind('/');
     g_comma_locale = envl::build_comma_locale((sl == std::string::npos ? std::string(".") : self.substr(0, sl)) + "/locale_comma");
   }
+  // D8: 16/17-digit decimals at the DIGIT-BLOCK boundaries of the formatter (it divides the significand by 10^8 and by
+  // 10^4): high part H from 1000 values, low 8 digits L just below / above a multiple of 10^8 and around the middle
+  static const uint32_t L8[] = {0, 1, 2, 3, 9, 10, 99, 9999, 10000, 49999999, 50000000, 50000001, 99990000, 99999989, 99999990, 99999991, 99999992, 99999993, 99999994, 99999995, 99999996, 99999997, 99999998, 99999999};
+  const unsigned NL8 = sizeof L8 / sizeof L8[0];
+  vr::Family d8;
+  d8.name = "D8_digit_block_boundaries";
+  d8.count = (uint64_t)1000 * NL8 * 2 * NK5;
+  d8.group = "D8";
+  d8.chunk = 4096;
+  d8.rule = "doubles nearest H*10^8 + L (17 digits) and (H/10)*10^8 + L (16 digits) for 1000 values H spread over [10^8, 10^9), L from 24 values at the block boundaries (0..3, 9, 10, 99, 9999, 10000, 49999999..50000001, 99990000, 99999989..99999999), at 38 decimal exponents: the doubles whose shortest 16/17-digit text has its low eight digits next to a carry";
   // D7: the floating-point ENVIRONMENT. Printing works on the bit pattern; a process that runs with denormals-are-zero /
   // flush-to-zero (every program linked with -ffast-math) or a non-default rounding mode must get the same text
   vr::Family d7;
@@ -344,6 +354,27 @@ int main(int argc, char** argv) {
 
   vr::CheckFn check = [&](const vr::Family& f, uint64_t idx, vr::Ctx& ctx) {
     const std::string& nm = f.name;
+    if (nm[1] == '8') {
+      int k = K5[idx % NK5];
+      idx /= NK5;
+      unsigned sixteen = (unsigned)(idx % 2);
+      idx /= 2;
+      uint32_t lo = L8[idx % NL8];
+      uint64_t hi = 100000000ull + (idx / NL8) * 900000ull + ((idx / NL8) * 7919ull) % 900000ull;  // 1000 values in [10^8, 10^9)
+      if (sixteen) hi /= 10;
+      char b[48];
+      snprintf(b, sizeof b, "%llu%08ue%d", (unsigned long long)hi, lo, k);
+      double x = std::strtod(b, nullptr);
+      uint64_t bits = bits_of(x);
+      if ((bits >> 52) >= 0x7ff || (bits << 1) == 0) {
+        ctx.skip();
+        return;
+      }
+      if (ctx.want_sample) ctx.sample(b);
+      ctx.nontriv();
+      check_double(bits, ctx, false);
+      return;
+    }
     if (nm[1] == '7') {
       static const unsigned bes[6] = {0, 1, 2, 1023, 1075, 2046};
       uint64_t sign = idx & 1;
@@ -500,7 +531,7 @@ int main(int argc, char** argv) {
     }
   };
 
-  std::vector<vr::Family> fams = {d1, d2, d3, d3b, d4, d5, d6, d7};
+  std::vector<vr::Family> fams = {d1, d2, d3, d3b, d4, d5, d6, d7, d8};
   if (args.replay) return R.replay_one(fams, check);
   const std::string only = args.get("only");
   for (auto& f : fams)
